@@ -95,6 +95,14 @@ func (w *hostileWorld) safeInject(proto tcpip.NetworkProtocolNumber, data []byte
 		}
 	}()
 	w.Inject(w.S.Link, proto, data, "\x02\xbb\x00\x00\x00\x09", stackMAC, w.cfg.Mode)
+	w.linkAlive()
+}
+
+// linkAlive: on the fd-based link the endpoint's receive loop must survive every frame.
+func (w *hostileWorld) linkAlive() {
+	if l := w.S.Link; l.fdDead {
+		w.Fail("link-dead", "", "the fd-based endpoint's receive loop returned after reading a frame of %d bytes (Ethernet header included): the interface is deaf from then on", l.lastRx)
+	}
 }
 
 func panicSig(msg string) string {
@@ -416,6 +424,17 @@ func (w *hostileWorld) apply(s Step) {
 			}
 		}
 		w.Probes["transport_packets_in_fragments"]++
+	case "runt":
+		// fd-based link only: a frame shorter than, or just as long as, an Ethernet header
+		if w.S.Link.fdrx != nil {
+			b := make([]byte, 1+s.A%16)
+			for i := range b {
+				b[i] = byte(r.Intn(256))
+			}
+			w.InjectRaw(w.S.Link, b)
+			w.linkAlive()
+			w.Probes["runt_ethernet_frames"]++
+		}
 	case "noise":
 		b := make([]byte, r.Intn(120))
 		for i := range b {
@@ -517,7 +536,7 @@ func (w *hostileWorld) serve() {
 
 func (w *hostileWorld) next() Step {
 	r := w.Rng
-	switch r.Pick(12, 2, 4, 2, 2, 1, 3) {
+	switch r.Pick(12, 2, 4, 2, 2, 1, 3, 1) {
 	case 0:
 		return Step{Op: "mut", A: r.Intn(1 << 20), B: r.Intn(1 << 20)}
 	case 1:
@@ -530,6 +549,8 @@ func (w *hostileWorld) next() Step {
 		return Step{Op: "noise", A: r.Intn(1 << 20), B: r.Intn(1 << 20)}
 	case 6:
 		return Step{Op: "fragvalid", A: r.Intn(1 << 20), B: r.Intn(1 << 20)}
+	case 7:
+		return Step{Op: "runt", A: r.Intn(16), B: r.Intn(1 << 20)}
 	}
 	return Step{Op: "adv", D: int64(time.Duration([]int{10, 1000, 29000, 31000, 61000}[r.Intn(5)]) * time.Millisecond)}
 }
